@@ -10,7 +10,7 @@ of Pool.tla is checked as refinement conformance and only reported.
 import json
 import random
 
-from . import core
+from . import core, inputs, progs
 
 KINDS = ("token", "position")
 
@@ -146,6 +146,12 @@ def run(tier):
         elif r.get("bad"):
             check.violation({"class": r["bad"], "kind": t["kind"], "size_class": "long"}, {"task": t, "observed": r})
     check.cov["long_runs"] = {"sizes": lsizes, "requests_each": count}
+
+    # ---- "stay valid": the tokens and positions of a parsed tree live in pool blocks; they must stay what they were while later
+    # parses (new lexers, new pools, garbage collections in between) go on
+    for t, r in progs.retain_results(check, wp, inputs.programs(check, tier), core.seed(), 150 if tier == "quick" else 2000):
+        if r.get("changed") == "tree-of-an-earlier-parse-changed" and r.get("part") in ("tokens", "positions"):
+            check.violation({"class": "objects-of-an-earlier-parse-changed", "kind": r.get("part"), "size_class": "parse"}, {"task": {"src": t["src"], "ver": t["ver"], "others": len(t["others"])}, "observed": r})
 
     # ---- impl -> spec: long histories on the real pools validated by TLC
     plan = [(1, 6), (2, 7), (3, 11), (7, 23), (64, 3 * 64 + 2)]
